@@ -101,6 +101,9 @@ def run(ctx):
         "value that merely contains a key (over-long with the key at the tail or head, truncated, padded) is "
         "not a key: whatever such an element 'certifies' is refused, although it is itself valid and reports "
         "its whole value; message shapes longHead / short / sliced are one abstract class and are all run",
+        "the root key is the key, however it is encoded: 40 % of the ordinary certificates are validated with the "
+        "root (right or wrong) handed to HSMCertificateRoot in compressed form; the reference verdict is that of "
+        "the key (CertChainProps: RootEncodings)",
         "the reported tweak (3rd component) is not part of the property text: a mismatch is counted as "
         "tweak_report_drift, not as a violation",
         "elements and links that the model's program never reads are filled with seeded random content "
@@ -244,6 +247,11 @@ def run(ctx):
     res.coverage["random_certificates"] = n_rand
     res.coverage["byte_sweep_certificates"] = len(sweep)
     res.coverage["spelling_certificates"] = len(spelt)
+    # the root key is handed over compressed for a seeded 40 % of the ordinary certificates (right and wrong
+    # roots alike) and for every second spelling certificate
+    for p in plans:
+        if "ops" not in p and "pair" not in p and ctx.rng.random() < 0.4:
+            p["rootenc"] = "compressed"
     if not ctx.quick:
         # thorough: keys are drawn from a per-run population instead of being generated per certificate
         for p in plans[:n_model + n_rand]:
@@ -276,6 +284,10 @@ def run(ctx):
                 drift += 1
                 break
     res.coverage["model_drift"] = drift
+    res.coverage["root_key_encodings"] = {e: sum(1 for t in traces if t.get("rootenc", "uncompressed") == e)
+                                          for e in ("uncompressed", "compressed")}
+    if not res.coverage["root_key_encodings"]["compressed"]:
+        raise core.MachineryError("vacuity: no certificate was validated against a compressed root key")
     from ..certv1 import SPELL_REFUSED, SPELL_ACCEPTED
     res.coverage["spellings_run"] = {m: sum(1 for t in traces if t["spell"] == m)
                                      for m in SPELL_ACCEPTED[1:] + SPELL_REFUSED}
